@@ -61,6 +61,7 @@ type StressParams struct {
 	ZeroReads bool   // zero-length reads mixed in
 	ConcOpen  bool   // all opens of a side run concurrently (else one after the other)
 	UseClose  bool   // end streams with Close instead of CloseWrite on one side
+	CWRace    bool   // CloseWrite from another goroutine while a multi-block Write is in progress
 }
 
 func (p StressParams) String() string {
@@ -70,17 +71,17 @@ func (p StressParams) String() string {
 		}
 		return 0
 	}
-	return fmt.Sprintf("S %d %s %s hb%d o%d,%d n%d st%d bu%d dl%d z%d cl%d zr%d co%d concurrent-stress-workload-over-net.Pipe(seed,cfgA,cfgB,heartbeat,opens,bytes,stallers,burst,deadlines,emptywrites,close,zeroreads,concurrentopens)", p.Seed, p.Cfg[0], p.Cfg[1], b(p.Heartbeat),
-		p.Streams[0], p.Streams[1], p.Bytes, p.Stallers, b(p.Burst), b(p.Deadlines), b(p.ZeroOps), b(p.UseClose), b(p.ZeroReads), b(p.ConcOpen))
+	return fmt.Sprintf("S %d %s %s hb%d o%d,%d n%d st%d bu%d dl%d z%d cl%d zr%d co%d cwr%d concurrent-stress-workload-over-net.Pipe(seed,cfgA,cfgB,heartbeat,opens,bytes,stallers,burst,deadlines,emptywrites,close,zeroreads,concurrentopens)", p.Seed, p.Cfg[0], p.Cfg[1], b(p.Heartbeat),
+		p.Streams[0], p.Streams[1], p.Bytes, p.Stallers, b(p.Burst), b(p.Deadlines), b(p.ZeroOps), b(p.UseClose), b(p.ZeroReads), b(p.ConcOpen), b(p.CWRace))
 }
 
 // ParseStress parses a line produced by StressParams.String.
 func ParseStress(line string) (StressParams, error) {
 	var p StressParams
 	var ca, cb string
-	var hb, bu, dl, z, cl, zr, co int
-	_, err := fmt.Sscanf(line, "S %d %s %s hb%d o%d,%d n%d st%d bu%d dl%d z%d cl%d zr%d co%d", &p.Seed, &ca, &cb, &hb,
-		&p.Streams[0], &p.Streams[1], &p.Bytes, &p.Stallers, &bu, &dl, &z, &cl, &zr, &co)
+	var hb, bu, dl, z, cl, zr, co, cwr int
+	_, err := fmt.Sscanf(line, "S %d %s %s hb%d o%d,%d n%d st%d bu%d dl%d z%d cl%d zr%d co%d cwr%d", &p.Seed, &ca, &cb, &hb,
+		&p.Streams[0], &p.Streams[1], &p.Bytes, &p.Stallers, &bu, &dl, &z, &cl, &zr, &co, &cwr)
 	if err != nil {
 		return p, err
 	}
@@ -91,7 +92,7 @@ func ParseStress(line string) (StressParams, error) {
 		return p, err
 	}
 	p.Heartbeat, p.Burst, p.Deadlines, p.ZeroOps, p.UseClose = hb == 1, bu == 1, dl == 1, z == 1, cl == 1
-	p.ZeroReads, p.ConcOpen = zr == 1, co == 1
+	p.ZeroReads, p.ConcOpen, p.CWRace = zr == 1, co == 1, cwr == 1
 	return p, nil
 }
 
@@ -120,6 +121,21 @@ type stressRun struct {
 	stats map[string]*int64
 	// failures of CloseWrite/Close: consequences when a tear-down is reported
 	closeNotes []string
+	// sum of the counts returned by Write per (side, stream), sent when the writer is done
+	written sync.Map
+	// bytes read so far by the peer per writing (side, stream)
+	progress sync.Map
+}
+
+// readProgress counts the bytes of (side, stream)'s data the peer has read so far.
+func (s *stressRun) readProgress(side int, id uint64) *int64 {
+	v, _ := s.progress.LoadOrStore(fmt.Sprintf("%d/%d", side, id), new(int64))
+	return v.(*int64)
+}
+
+func (s *stressRun) writtenCh(side int, id uint64) chan int {
+	ch, _ := s.written.LoadOrStore(fmt.Sprintf("%d/%d", side, id), make(chan int, 1))
+	return ch.(chan int)
 }
 
 func (s *stressRun) note(list *[]string, format string, a ...any) {
@@ -145,10 +161,33 @@ func (s *stressRun) count(label string) {
 func (s *stressRun) writer(r *hx.Rand, side int, st *multiplexing.Stream, id uint64, useClose bool) {
 	data := pattern(side, id, s.p.Bytes)
 	maxChunk := s.p.Cfg[1-side].effective().Window*2 + 3
+	total := 0
+	defer func() { s.writtenCh(side, id) <- total }()
+	if s.p.CWRace && !useClose {
+		// one or two Writes spanning many blocks; another goroutine closes for
+		// writing while they are in progress
+		maxChunk = len(data)
+		go func() {
+			// strike while the Write is in the middle of its payload: wait until
+			// the peer has read a random part of it (or a while, whichever is first)
+			target := int64(1 + r.Intn(len(data)))
+			prog := s.readProgress(side, id)
+			deadline := time.Now().Add(time.Duration(200+r.Intn(3000)) * time.Microsecond)
+			for atomic.LoadInt64(prog) < target && time.Now().Before(deadline) {
+				runtime.Gosched()
+			}
+			if err := st.CloseWrite(); err != nil {
+				s.note(&s.closeNotes, "class=teardown CloseWrite on %d/%d: %v", side, id, err)
+			}
+			s.count("racing-closewrite")
+		}()
+	}
 	for len(data) > 0 {
 		if s.p.ZeroOps && r.Chance(1, 6) {
 			if n, err := st.Write(nil); errors.Is(err, os.ErrDeadlineExceeded) {
 				st.SetWriteDeadline(time.Time{})
+			} else if s.p.CWRace && err == multiplexing.ErrWriteClosed {
+				return
 			} else if n != 0 || (err != nil && err != multiplexing.ErrMultiplexerClosed) {
 				s.note(&s.res.C23, "class=stream-bytes empty Write returned %d,%v on %d/%d", n, err, side, id)
 			}
@@ -163,7 +202,14 @@ func (s *stressRun) writer(r *hx.Rand, side int, st *multiplexing.Stream, id uin
 		}
 		n, err := st.Write(data[:k])
 		data = data[n:]
+		total += n
 		if err != nil {
+			if s.p.CWRace && err == multiplexing.ErrWriteClosed {
+				if n < k {
+					s.count("write-cut-by-closewrite")
+				}
+				return
+			}
 			if errors.Is(err, os.ErrDeadlineExceeded) {
 				s.count("write-deadline")
 				st.SetWriteDeadline(time.Time{})
@@ -200,6 +246,10 @@ func (s *stressRun) reader(r *hx.Rand, side int, st *multiplexing.Stream, id uin
 	maxBuf := s.p.Cfg[side].effective().Window + 4
 	for {
 		n := 1 + r.Intn(maxBuf)
+		if s.p.CWRace {
+			// many small reads = a steady stream of window increments towards the writer
+			n = 1 + r.Intn(3)
+		}
 		if s.p.ZeroReads && r.Chance(1, 5) {
 			n = 0
 			s.count("zero-read")
@@ -210,13 +260,26 @@ func (s *stressRun) reader(r *hx.Rand, side int, st *multiplexing.Stream, id uin
 		buf := make([]byte, n)
 		m, err := st.Read(buf)
 		got = append(got, buf[:m]...)
+		if m > 0 && s.p.CWRace {
+			atomic.AddInt64(s.readProgress(1-side, id), int64(m))
+		}
 		if !bytes.HasPrefix(want, got) {
 			s.note(&s.res.C23, "class=stream-bytes stream %d read by side %d: got %d bytes that are not a prefix of what the peer wrote (first difference at %d)", id, side, len(got), firstDiff(want, got))
 			return
 		}
 		if err == io.EOF {
-			if len(got) != len(want) {
-				s.note(&s.res.C23, "class=early-eof stream %d side %d: EOF after %d of %d bytes", id, side, len(got), len(want))
+			// everything the peer's Write calls reported as written must have been read
+			select {
+			case n := <-s.writtenCh(1-side, id):
+				if len(got) != n {
+					s.note(&s.res.C23, "class=early-eof stream %d side %d: EOF after %d bytes, the peer's Write calls returned %d", id, side, len(got), n)
+				}
+			case <-time.After(5 * time.Second):
+				if isClosedCh(s.mux[0].Closed()) || isClosedCh(s.mux[1].Closed()) {
+					s.count("aborted-by-mux-close")
+				} else {
+					s.note(&s.res.C23, "class=early-eof stream %d side %d: EOF while the peer is still writing", id, side)
+				}
 			}
 			return
 		}
